@@ -105,7 +105,7 @@ func propDefs() map[string]propDef {
 			[]string{`^ensures:(bind|park|inv|prefix|err)`, `^inv-`, `^pre:`},
 			[]string{`^ensures:(open|openbound|held|emit|inv|prefix|err)`, `^pre:`},
 			[]string{`^ensures:`, `^inv-`, `^pre:`, `^frame:`},
-			nil, nil, nil)),
+			nil, []string{`^ensures:(dom|val|frame)`, `^inv-`}, []string{`^ensures:(frame)`})),
 		Assume: []string{"EventWriter.Write appends exactly one event or fails without effect (assumed contract)"},
 		Explain: "per-operation whole-view postconditions over the ghost trace out with provenance: an event for an unbound session is appended to the held queue (queue' == queue ++ [e], nothing emitted); for a bound session exactly [render(e)] is emitted; RemoteLogin binding a session emits render(queue) in order (out[N+k].src == queue[k]) and empties the queue; a LOGIN record meeting a parked login emits exactly its own rendering; the invariant 'bound => queue empty' makes these compose, by induction over operations, to 'every event from the LOGIN record to the credential-disposal record emitted exactly once, in processing order'; writeAndClearCache's loop invariant carries the in-order claim for any queue length and the write-failure-at-index-i case",
 	}
@@ -120,7 +120,7 @@ func propDefs() map[string]propDef {
 	}
 	m["C09"] = propDef{ID: "C09", Level: "proof",
 		Units: trk(
-			[]string{`^ensures:inv:TrackerInv.*UserOK\.1\.2$`, `^ensures:(bind|c01)`},
+			[]string{`^ensures:inv:TrackerInv.*UserOK\.1\.2$`, `^ensures:(bind|bindkeep|c01)`, `^inv-`},
 			[]string{`^ensures:inv:TrackerInv.*UserOK\.1\.2$`, `^ensures:(emit|untracked|open)`},
 			nil, nil,
 			[]string{`^ensures:inv:TrackerInv.*UserOK\.1\.2$`}, []string{`^ensures:inv:TrackerInv.*UserOK\.1\.2$`}),
@@ -161,7 +161,7 @@ func propDefs() map[string]propDef {
 	m["C15"] = propDef{ID: "C15", Level: "proof",
 		Units: []unit{u("processors/auditd.parseAuditLogs"), u("processors/auditd.(*reassemblerCB).ReassemblyComplete"),
 			u("processors/auditd.(*Auditd).Read", `^ensures:`, `^selects:`, `^pre:`, `^inv-`, `^chaninv:`, safetyRe), u("processors/auditd.(*Auditd).Read$1"),
-			u("processors/auditd/sessiontracker.(*sessionTracker).RemoteLogin", `^ensures:(err|invalid|inv)`), u("processors/auditd/sessiontracker.(*sessionTracker).AuditdEvent", `^ensures:(err|badpid|inv)`)},
+			u("processors/auditd/sessiontracker.(*sessionTracker).RemoteLogin", `^ensures:(err|werr|invalid|inv)`, `^inv-`), u("processors/auditd/sessiontracker.(*sessionTracker).AuditdEvent", `^ensures:(err|werr|badpid|inv)`)},
 		Assume: []string{"grouping of interleaved records into one event happens inside go-libaudit's Reassembler (dependency, not decided)",
 			"that select eventually takes a ready error arm is fairness of the Go runtime (not decided)",
 			"the message text of parseAuditLogsError is built with fmt.Sprintf (opaque here): that it contains the line is not proved, that the error wraps the parser's error and that the offending line is the last one received is"},
@@ -237,15 +237,18 @@ func propDefs() map[string]propDef {
 	m["C07"] = propDef{ID: "C07", Level: "proof",
 		Units: []unit{u("ingesters/syslog.(*SyslogIngester).ParseSyslogMessage"), u("ingesters/syslog.(*SyslogIngester).Process"),
 			u("processors/sshd.(*SshdProcessorer).ProcessSshdLogEntry", `^ensures:traced$`),
+			u("ingesters/namedpipe.(*NamedPipeIngester).Ingest", `^ensures:(records|count)`, `^inv-(init|step):Ingest#1:(records|count)`),
 			u("ingesters/auditlog.(*AuditLogIngester).Process", `^ensures:(forward|nil)$`, safetyRe)},
 		Assume: []string{"auparse.ParseLogLine ignores trailing white space (dependency behaviour: Parse calls strings.TrimSpace) — assumed, not verified",
 			"rsyslog writes '<pid> <message>\\n' records as configured in contrib/rsyslog (configuration, not code)"},
-		Explain: "postcondition of the real ParseSyslogMessage for every record '<pid><one or more spaces><message>\\n' (pid without spaces, message not starting with a space): PID == pid and Message == message, i.e. the terminator is stripped, padding ignored, internal spacing preserved; Process hands exactly that value, once, to ProcessSshdLogEntry (ghost call record verified in the callee) with the same context; the audit ingester forwards the line unchanged to the channel",
+		Explain: "postcondition of the real ParseSyslogMessage for every record '<pid><one or more spaces><message>\\n' (pid without spaces, message not starting with a space): PID == pid and Message == message, i.e. the terminator is stripped, padding ignored, internal spacing preserved; the FIFO level is Ingest's record contract (each callback receives exactly one delimiter-terminated record, C12); Process hands exactly that value, once, to ProcessSshdLogEntry (ghost call record verified in the callee) with the same context; the audit ingester forwards the line unchanged to the channel",
 	}
 	m["C17"] = propDef{ID: "C17", Level: "proof",
 		Lemmas: []lemmaUnit{{Name: "sshd-formats", Args: []string{"C17"}}},
 		Units: []unit{u("processors/sshd.processInvalidUserEntry", `^ensures:(fields|match|only)$`), u("processors/sshd.failedPasswordAuth", `^ensures:(fields|match|only)$`),
-			u("processors/sshd.maxAuthAttemptsExceeded", `^ensures:(fields|match|only)$`)},
+			u("processors/sshd.maxAuthAttemptsExceeded", `^ensures:(fields|match|only)$`),
+			// delivery link: the line reaches the sshd processor with the user name's bytes intact (C07's message clause)
+			u("ingesters/syslog.(*SyslogIngester).ParseSyslogMessage", `^ensures:pipe`, safetyRe), u("ingesters/syslog.(*SyslogIngester).Process", `^ensures:(direct|once)`)},
 		Explain: "regular-language lemmas over the regexp contracts derived from the pattern literals of the current tree: for every user name in [^\\n]* every printed line of the three forms is routed to its handler, matches its pattern, and the Source and Port groups are exactly the printed address and port; composed with the handlers' verified postconditions (event fields == capture groups)",
 	}
 	return m
